@@ -43,7 +43,17 @@ def sp_eff_vis(eng, st, scope, def_vis):
 
 
 from contracts import inherit
-SPEC_ENV = {"lower": sp_lower, "private_in": sp_private_in, "eff_vis": sp_eff_vis, **inherit.SPEC_ENV}
+def sp_is_function(eng, st, o):
+    return V(BOOL, eng.decls.fun("is_function", ["Ref"], smt.BOOL)(o.t))
+
+
+def sp_in_block(eng, st, o):
+    d = eng.decls
+    p = d.opt_val(o.t) if isinstance(o.ty, TOpt) else o.t
+    return V(BOOL, d.fun("found_in_interface_block", ["Ref"], smt.BOOL)(p))
+
+
+SPEC_ENV = {"in_block": sp_in_block, "is_function": sp_is_function, "lower": sp_lower, "private_in": sp_private_in, "eff_vis": sp_eff_vis, **inherit.SPEC_ENV}
 AXIOMS = {}
 
 
@@ -54,6 +64,14 @@ def build(reg):
     def m_isinstance_function(eng, st, node, args, kwargs):
         return V(BOOL, eng.decls.fun("is_function", ["Ref"], smt.BOOL)(args[0].t))
 
+    def m_nested(eng, st, node, args, kwargs):
+        # the recursive call (members of an unnamed interface block) through its own contract; what it returns is
+        # marked as found inside a block (ghost predicate), direct children are not constrained
+        v = eng.call_contracted(f"{UTIL}.find_in_scope.check_scope", "check_scope", node, st, args, kwargs)
+        d = eng.decls
+        st.assume(smt.Implies(d.is_some(v.t), d.fun("found_in_interface_block", ["Ref"], smt.BOOL)(d.opt_val(v.t))))
+        return v
+
     reg.add(Contract(
         f"{UTIL}.find_in_scope.check_scope", prop="C05",
         params={"local_scope": TRef("Obj"), "var_name_lower": STR, "filter_public": BOOL, "var_line_number": TOpt(INT),
@@ -61,8 +79,13 @@ def build(reg):
         ref_fields=rf, ref_methods=rm, result=TOpt(TRef("Obj")),
         ensures=[("name", "implies(result is not None, lower(result.name) == var_name_lower)"),
                  ("not_private", "implies(result is not None and filter_public, "
-                                 "not private_in(result, eff_vis(local_scope, old(def_vis))))")],
-        calls={"check_scope": f"{UTIL}.find_in_scope.check_scope", "isinstance": m_isinstance_function},
+                                 "not private_in(result, eff_vis(local_scope, old(def_vis))))"),
+                 # on the FUNCTION and END FUNCTION statements the function's name is the function, not its result variable
+                 ("function_name_on_its_own_statements",
+                  "implies(is_function(local_scope) and lower(local_scope.name) == var_name_lower and "
+                  "var_line_number is not None and (var_line_number == local_scope.sline or var_line_number == local_scope.eline), "
+                  "result is None or in_block(result))")],
+        calls={"check_scope": m_nested, "isinstance": m_isinstance_function},
         loops={0: LoopSpec("for child in local_scope.get_children()", index="_k", invariants=[("trivial", "True")])},
         abstract_stmts={"from .function import Function": ()}, ghost={"constants": {"Function": 0}},
         short="find_in_scope.check_scope", nested_in=f"{UTIL}.find_in_scope"))
@@ -92,24 +115,27 @@ def structure_items(repo):
                 src_lines[k] = s_.lineno
     order = ["local", "include", "use", "host", "ancestors"]
     ok = all(k in src_lines for k in order) and [src_lines[k] for k in order] == sorted(src_lines[k] for k in order)
-    src = ast.unparse(fi.node)
-    ok_local = "if local_only or tmp_var is not None:\n        return tmp_var" in src
+    from pyvc import shape
+    sfi = shape.of(repo, f"{UTIL}.find_in_scope")
+    ok_local = shape.has(sfi, "if local_only or tmp_var is not None:\n    return tmp_var")
     items.append(Item("C05/find_in_scope/ensures.order", "proved" if ok and ok_local else "refuted", "structural", 0.0,
                       where=fi.where(), mode="table", func=fi.qualname,
                       detail="a local declaration is returned before anything else; then INCLUDE, USE tree, host scope, ancestors",
                       witness=None if ok and ok_local else {"statement_lines": src_lines}))
-    use_ok = ("tmp_var = check_scope(use_scope, mod_name, filter_public=True)" in src
-              and "if len(use_info.only_list) > 0 and var_name_lower not in use_info.only_list:\n            continue" in src
-              and "mod_name = use_info.rename_map.get(var_name_lower, var_name_lower)" in src)
+    use_ok = (shape.has(sfi, "tmp_var = check_scope(use_scope, mod_name, filter_public=True)")
+              and shape.has(sfi, "if len(use_info.only_list) > 0 and var_name_lower not in use_info.only_list:\n    continue")
+              and shape.has(sfi, "mod_name = use_info.rename_map.get(var_name_lower, var_name_lower)"))
     items.append(Item("C05/find_in_scope/ensures.use_public_only", "proved" if use_ok else "refuted", "structural", 0.0,
                       where=fi.where(), mode="table", func=fi.qualname,
                       detail="objects reached through USE are looked up with filter_public=True, only if the ONLY list (when "
                              "present) names them, under the module-side name given by the rename map",
                       witness=None if use_ok else {"reason": "USE lookup no longer filters PRIVATE / ONLY / rename"}))
     fc = repo.func(f"{UTIL}.climb_type_tree")
-    csrc = ast.unparse(fc.node)
-    ok = ("for _ in range(30):" in csrc and "type_obj = var_obj.get_type_obj(obj_tree)" in csrc
-          and "var_obj = find_in_scope(type_obj, var_name, obj_tree" in csrc)
+    sfc = shape.of(repo, f"{UTIL}.climb_type_tree")
+    ok = (any(isinstance(n, ast.For) and ast.unparse(n.iter) == "range(30)" for n in ast.walk(sfc))
+          and shape.has(sfc, "type_obj = var_obj.get_type_obj(obj_tree)")
+          and any(isinstance(n, ast.Assign) and isinstance(n.value, ast.Call) and ast.unparse(n.value.func) == "find_in_scope"
+                  and len(n.value.args) >= 3 for n in ast.walk(sfc)))
     items.append(Item("C05/climb_type_tree/ensures.member_chain", "proved" if ok else "refuted", "structural", 0.0,
                       where=fc.where(), mode="table", func=fc.qualname,
                       detail="each link of a % chain is resolved starting in the declared type of the previous one, at most 30 links"))
@@ -168,7 +194,13 @@ FILES2 = {
               "  type , EXTENDS ( base ),public :: child2\n    integer :: cy\n  end type child2\ncontains\n  subroutine s3()\n    type(child) :: c\n"
               "    type(child2) :: d\n    c%bx = 1\n    d%bx = 2\n  end subroutine s3\nend module tb\n",
 }
+FILES2["fn.f90"] = ("module fm\n  implicit none\ncontains\n  function twice(n)\n    integer :: n\n    integer :: twice\n    twice = 2 * n\n"
+                    "  end function twice\n  subroutine user()\n    integer :: k\n    k = twice(1)\n  end subroutine user\nend module fm\n")
 EXPECT2 = [
+    ("fn.f90", 3, 12, ("fn.f90", 3)),     # the name on the FUNCTION statement is the function
+    ("fn.f90", 7, 16, ("fn.f90", 3)),     # ... and so is the name on the END FUNCTION statement
+    ("fn.f90", 6, 5, ("fn.f90", 5)),      # inside the body it is the result variable
+    ("fn.f90", 10, 9, ("fn.f90", 3)),     # a reference from another procedure
     ("h2.f90", 7, 4, ("decl1.f90", 0)),   # inc_pub: PUBLIC statement in a default-private module names an INCLUDEd entity
     ("h2.f90", 8, 4, ("h2.f90", 3)),      # inc_hidden stays private in i1: the host's own variable
     ("h2.f90", 12, 4, ("h2.f90", 2)),     # inc_priv: PRIVATE statement names an INCLUDEd entity -> the host's own variable
@@ -381,7 +413,7 @@ def replay(obligation, model, rep):
 def search(func, tier, seed, obligation=""):
     if func.endswith("_resolve_inherit_parent"):
         return inherit.native_search()
-    w = definition_oracle()
+    w = definition_oracle() or definition_oracle(FILES2, EXPECT2)
     if w:
         return w
     from contracts import c05_gen
